@@ -199,8 +199,8 @@ def run(ctx):
                r"explained-by-IoCh.exec (\d+)", "L-trace io barrier", "iobar", timeout=200)
     # peer hang-up under the stream sources of a channel: the sources of a hung-up descriptor (F27)
     run_traces(ctx, "c16_hangup", [[ctx.seed * 10 + 7, 1000 if ctx.thorough else 150]], None, None, "L-api hang-up", "hangup", timeout=600)
-    # the stream's readiness source under stop: reads of two channels waiting on one pipe, the first channel stopped, data in small pieces (F32)
-    run_traces(ctx, "c14_rearm", [[ctx.seed * 10 + i, 6000 if ctx.thorough else 1500] for i in range(8 if ctx.thorough else 6)], None, None, "L-api stream source re-arm", "rearm", timeout=600)
+    # the stream of a descriptor shared by two channels under stop: forced histories (the handler requested twice - F32; a failed operation with other channels' operations queued behind it - F33) and a storm with data in small pieces
+    run_traces(ctx, "c14_rearm", [[ctx.seed * 10 + i, 6000 if ctx.thorough else 700] for i in range(8 if ctx.thorough else 4)], None, None, "L-api stream source re-arm", "rearm", timeout=600)
     # known finding F31: a zero-length operation overtakes an earlier operation of its direction that is still waiting
     forced(ctx, "f31_zero_length_order", "F31", "io:order:zero-length-overtakes:forced-F31", "F31")
     # cleanup orchestration: the recorded history of the descriptor entry's close queue (suspensions / resumptions, handler calls,
